@@ -114,7 +114,7 @@ pub fn run_one(flow: &Flow, inp: &RunIn<'_>, pending_child: &Pending) -> RunOut 
         let b = flow.run(inp.bytes, &steps);
         let fb = fingerprint(&b);
         if fa != fb {
-            out.fail(format!("replay_differs_in_process/{}", kind.name()), format!("execution #{} from the same {} decision bytes differs from the first: {}", i + 2, inp.bytes.len(), first_diff(&fa, &fb)));
+            out.fail(format!("replay_differs/{}", kind.name()), format!("in one process: execution #{} from the same {} decision bytes differs from the first: {}", i + 2, inp.bytes.len(), first_diff(&fa, &fb)));
             break;
         }
     }
@@ -139,7 +139,7 @@ pub fn run_one(flow: &Flow, inp: &RunIn<'_>, pending_child: &Pending) -> RunOut 
         match run_child(&[(kind.name().to_string(), inp.run_seed, Some(inp.bytes.to_vec()))]) {
             Ok(m) => match m.get(&(kind.name().to_string(), inp.run_seed)) {
                 Some(h) if *h == want => {}
-                Some(h) => out.fail(format!("replay_differs_across_processes/{}", kind.name()), format!("fingerprint {want} in this process, {h} in a fresh child process")),
+                Some(h) => out.fail(format!("replay_differs/{}", kind.name()), format!("across processes: fingerprint {want} in this process, {h} in a fresh child process")),
                 None => out.harness_error = Some("child process printed no hash".into()),
             },
             Err(e) => out.harness_error = Some(e),
@@ -172,7 +172,7 @@ fn e2e_c38() {
                     for (n, r, s, want) in chunk {
                         match m.get(&(n.clone(), *s)) {
                             Some(h) if h == want => {}
-                            Some(h) => po.viols.push((format!("replay_differs_across_processes/{n}"), *r, format!("run seed {s}: fingerprint {want} in this process, {h} in a fresh child process"))),
+                            Some(h) => po.viols.push((format!("replay_differs/{n}"), *r, format!("across processes: run seed {s}: fingerprint {want} in this process, {h} in a fresh child process"))),
                             None => po.harness_error = Some(format!("child printed no hash for {n} {s}")),
                         }
                     }
